@@ -193,6 +193,63 @@ pub const NUM_POOL: [&str; 14] = [
 ];
 pub const KEY_POOL: [&str; 12] = ["a", "b", "c", "k", "a-b", "0", "z", "type", "__proto__", "constructor", "toString", "1"];
 
+/// Map keys and Set items are compared with SameValueZero: -0 is the same key as 0
+pub fn same_value_zero_canon(v: JsVal) -> JsVal {
+    match v {
+        JsVal::Num(ref s) if s == "-0" => JsVal::num("0"),
+        other => other,
+    }
+}
+
+/// The value JavaScript actually builds from this description: `new Map(entries)` keeps the last entry per
+/// key and `new Set(items)` one item per SameValueZero class.
+pub fn canon(v: JsVal) -> JsVal {
+    match v {
+        JsVal::Arr(xs) => JsVal::Arr(xs.into_iter().map(canon).collect()),
+        JsVal::Obj(kv, p) => {
+            let mut out: Vec<(String, JsVal)> = vec![];
+            for (k, x) in kv {
+                let x = canon(x);
+                if let Some(e) = out.iter_mut().find(|(k2, _)| *k2 == k) {
+                    e.1 = x;
+                } else {
+                    out.push((k, x));
+                }
+            }
+            JsVal::Obj(out, p)
+        }
+        JsVal::Map(kv) => {
+            let mut out: Vec<(JsVal, JsVal)> = vec![];
+            for (k, x) in kv {
+                let k = same_value_zero_canon(canon(k));
+                let x = canon(x);
+                // identity-compared keys (objects, functions, symbols) are distinct entries in JS but equal here
+                let identity = !matches!(k, JsVal::Undef | JsVal::Null | JsVal::Bool(_) | JsVal::Num(_) | JsVal::Str(_) | JsVal::BigInt(_));
+                if !identity {
+                    if let Some(e) = out.iter_mut().find(|(k2, _)| *k2 == k) {
+                        e.1 = x;
+                        continue;
+                    }
+                }
+                out.push((k, x));
+            }
+            JsVal::Map(out)
+        }
+        JsVal::Set(xs) => {
+            let mut out: Vec<JsVal> = vec![];
+            for x in xs {
+                let x = same_value_zero_canon(canon(x));
+                let identity = !matches!(x, JsVal::Undef | JsVal::Null | JsVal::Bool(_) | JsVal::Num(_) | JsVal::Str(_) | JsVal::BigInt(_));
+                if identity || !out.contains(&x) {
+                    out.push(x);
+                }
+            }
+            JsVal::Set(out)
+        }
+        other => other,
+    }
+}
+
 pub fn arbitrary_leaf(s: &mut Src) -> JsVal {
     match s.below(14) {
         0 => JsVal::Str(s.pick(&STR_POOL).to_string()),
@@ -241,13 +298,22 @@ pub fn arbitrary(s: &mut Src, depth: usize) -> JsVal {
         }
         6 => {
             let n = s.range(0, 2);
-            JsVal::Map((0..n).map(|_| (arbitrary_leaf(s), arbitrary(s, depth - 1))).collect())
+            let mut kv: Vec<(JsVal, JsVal)> = vec![];
+            for _ in 0..n {
+                let k = same_value_zero_canon(arbitrary_leaf(s));
+                let v = arbitrary(s, depth - 1);
+                // keys that cannot be told apart by the encoding (symbols, functions, objects) are used once
+                if !kv.iter().any(|(x, _)| *x == k) {
+                    kv.push((k, v));
+                }
+            }
+            JsVal::Map(kv)
         }
         _ => {
             let n = s.range(0, 2);
             let mut v: Vec<JsVal> = vec![];
             for _ in 0..n {
-                let x = arbitrary(s, depth - 1);
+                let x = same_value_zero_canon(arbitrary(s, depth - 1));
                 if !v.contains(&x) {
                     v.push(x);
                 }
